@@ -526,3 +526,18 @@ func assignIDs(kind int, n int) func(uint64) uint64 {
 }
 
 var assignNames = []string{"ordinal", "sparse", "large"}
+
+// assignFor is assignIDs, except that a hierarchical structure needs IDs increasing with the level
+// (Tassa's condition, hierarchical.CheckConstraints): there the assigned IDs are used in ascending order.
+func assignFor(fam byte, kind int, n int) func(uint64) uint64 {
+	f := assignIDs(kind, n)
+	if fam != 'H' {
+		return f
+	}
+	all := make([]uint64, n)
+	for k := 1; k <= n; k++ {
+		all[k-1] = f(uint64(k))
+	}
+	sort.Slice(all, func(i, j int) bool { return all[i] < all[j] })
+	return func(k uint64) uint64 { return all[k-1] }
+}
